@@ -33,6 +33,15 @@ CHECKS = {
     "C05": dict(technique='bounded SMT (z3) equivalence between the SQL regenerated from the real transpiler and a VTL reference interpreter over symbolic tables; models replayed through run()', engine="sqlsmt", ref="3 C05", note='Trusted: sqlglot + vt/sqlsmt SQL semantics (self-checked per template against real DuckDB on random concrete tables on every run), z3, hand-built AST shapes. Reals stand for DOUBLE.' + " UNION ALL is modelled as concatenation in branch order and ROW_NUMBER() OVER () as the position in it.",
         text="union/intersect (2-4 operands) and setdiff/symdiff over all operand tables of 2-3 datapoints with symbolic key overlaps and conflicting measures: the emitted SQL "
              "(UNION ALL + ROW_NUMBER + QUALIFY, SEMI/ANTI joins, CTEs) equals the keyed-set reference (union keeps the first operand holding a key; measures from the retained datapoint)."),
+    "C10": dict(technique="bounded SMT (z3) invariant queries over the symbolic result of the SQL regenerated from the real transpiler + structure of a concrete run() against semantic_analysis()",
+        engine="sqlsmt", ref="3 C10", note='Trusted: sqlglot + vt/sqlsmt SQL semantics (self-checked against real DuckDB in the C01-C05 checks), z3, hand-built AST shapes.' + " Value-level type conformity only (pandas dtypes are outside).",
+        text="For every template of the behavioural properties the solver decides, over all input tables within the row bound, that no result datapoint has a null or repeated identifier, a null "
+             "in a component semantic analysis declares non-nullable, a non-integral value in an Integer component, and that a dataset without identifiers has at most one datapoint; a solver-chosen "
+             "concrete input is then pushed through the real run() and the returned names, roles, types, nullability and column order are compared with semantic_analysis()."),
+    "C33": dict(technique="bounded SMT (z3) self-composition: the SQL regenerated from the real transpiler evaluated under two symbolic physical row orders of the same symbolic datapoints",
+        engine="sqlsmt", ref="3 C33", note='Trusted: sqlglot + vt/sqlsmt SQL semantics (self-checked against real DuckDB in the C01-C05 checks), z3, hand-built AST shapes.' + " Physical order model: scan order of an input table = its row order; UNION ALL concatenates.",
+        text="Each template is evaluated twice over the same symbolic datapoints with two independent symbolic row orders per input (order indices feed ROW_NUMBER() OVER (), unordered list() "
+             "and order ties); z3 decides the two results are equal as sets (unsat). Partial: input forms (CSV/Parquet) and column reordering are decided inside DuckDB/pandas and are outside."),
     "C11": dict(
         technique="CrossHair symbolic execution of the real promotion functions and operator classes over symbolic type indices",
         text="Every obligation is a CrossHair condition over symbolic operand-type indices (all 9x9 pairs, all 9 unary types) calling the "
